@@ -73,7 +73,7 @@ FLOORS = {
             'aead:random-bytes/rejected', 'aead:random-string/rejected', 'aead:empty/rejected'],
     'C11': PF_FLOOR + ['validators:addr/ok', 'validators:addr/denied', 'validators:addr/invalid-email', 'validators:domain/ok', 'validators:domain/denied',
             'validators:domain/invalid-email'],
-    'C17': ['caches:gc/hit', 'caches:gc/miss', 'caches:gc/error', 'caches:gc/purge', 'caches:fc/updBegin/began', 'caches:fc/updBegin/busy',
+    'C17': ['caches:pop/notfound', 'caches:pop/ok', 'caches:pop/err', 'caches:gc/hit', 'caches:gc/miss', 'caches:gc/error', 'caches:gc/purge', 'caches:fc/updBegin/began', 'caches:fc/updBegin/busy',
             'caches:fc/updEnd/updated', 'caches:fc/loopStart/loopStarted', 'caches:fc/loopStart/loopRefused', 'caches:fc/loopUpdBegin/began',
             'caches:fc/loopUpdBegin/busy', 'caches:fc/loopUpdEnd/updated', 'caches:fc/loopExit/exited', 'caches:fc/stop/stopped', 'caches:fc/get/got',
             'caches:mem/google/partly', 'caches:mem/google/allcached', 'caches:mem/google/nonecached', 'caches:mem/cognito/partly',
